@@ -368,9 +368,9 @@ def run(ctx):
             okn = v[0] == "v" and v[2] == "Success"
         ctx.require(okn, "R19.5", "none-arm", "(None, None, _) -> Success", pe.loc(pe.line))
         # the i32 -> Signal conversion used by `.into()` is From<i32> (checked in R19.1)
-        mir_into = [t for _, t in pe.calls() if t.callee.is_("core::convert::Into::into") and "watchexec_signals::Signal" in (t.callee.full or "")]
+        mir_into = [t for _, t in pe.calls() if t.callee.is_("core::convert::Into::into", "core::convert::From::from") and "watchexec_signals::Signal" in (t.callee.full or "")]
         ctx.require(len(mir_into) >= 1 and all("i32" in t.callee.full for t in mir_into), "R19.5", "signal-conversion",
-                    "the signal number is converted with <i32 as Into<Signal>>", pe.loc(pe.line))
+                    "the signal number is converted with <i32 as Into<Signal>> / <Signal as From<i32>>", pe.loc(pe.line), detail=str([t.callee.full for t in mir_into]))
     except Skip:
         pass
 
